@@ -50,6 +50,10 @@ func init() {
 		strings.Repeat("ab", 300), strings.Repeat("\\", 9), strings.Repeat("\"", 5),
 		"[NaN]", "x,NaN", "k:NaN", ",-Inf", ":+Inf", "[+Inf,-Inf]", ",null", ":true", "\":\"", "},{", "],[", "\",\"", ": ", ", ", "\n  ", "[\n]", "{ }", "0x1p-2", ".5", "5.", "+1", "1_0", "1e", "-", "+", "e9", "Infinity", "nan",
 	}
+	for _, hex := range []string{"0000", "0022", "002f", "003c", "003e", "0026", "005c", "007f", "00e9", "2028", "2029", "d83d", "dfff", "fffd", "ffff", "003C", "FFFF"} {
+		StrPool = append(StrPool, "\\u"+hex, "a\\u"+hex+"b")
+	}
+	StrPool = append(StrPool, "\\n", "\\t", "\\\"", "\\/", "\\b", "\\x41", "\\U0001F600", "<>&", "</script>", "&amp;")
 	KeyPool = append([]string{".", "#", "a.b", "a#1", ".b", "#1", "..", "a.", "a#", "0", "1", "key", "k", "x", "y", "z", "inner", "list", "object", "id", "a", "b", "c"}, StrPool[:60]...)
 }
 
@@ -165,6 +169,9 @@ func GenStr(r *rng.R) string {
 	case 6:
 		// concatenation of two pool strings (escape adjacency)
 		return StrPool[r.Intn(len(StrPool))] + StrPool[r.Intn(len(StrPool))]
+	case 7:
+		// text that spells an escape sequence literally (backslash, u, four hex digits)
+		return StrPool[r.Intn(len(StrPool))] + "\\u" + string("0123456789abcdefABCDEF"[r.Intn(22)]) + string("0123456789abcdef"[r.Intn(16)]) + string("0123456789abcdef"[r.Intn(16)]) + string("0123456789abcdefABCDEF"[r.Intn(22)])
 	default:
 		n := r.Range(1, 10)
 		var b strings.Builder
